@@ -99,8 +99,21 @@ func Observe(d *db.DB, names []string, maxV uint32) string {
 	if err != nil {
 		return "list error: " + err.Error()
 	}
+	// Everything a call returns belongs to the caller: once rendered, the returned bytes and version
+	// lists are overwritten, so a result that shares memory with the database shows in what is read next.
+	scribble := func(sv *api.SecretValue) {
+		for i := range sv.Value {
+			sv.Value[i] ^= 0xff
+		}
+	}
+	scribbleInfo := func(in *api.SecretInfo) {
+		for i := range in.Versions {
+			in.Versions[i] = 4000000000
+		}
+	}
 	for _, in := range infos {
 		out = append(out, fmt.Sprintf("L %s %v a=%d", in.Name, in.Versions, in.ActiveVersion))
+		scribbleInfo(in)
 	}
 	for _, n := range names {
 		in, err := d.Info(su, n)
@@ -108,12 +121,14 @@ func Observe(d *db.DB, names []string, maxV uint32) string {
 			out = append(out, fmt.Sprintf("I %s %v", n, Classify(err)))
 		} else {
 			out = append(out, fmt.Sprintf("I %s %v a=%d", in.Name, in.Versions, in.ActiveVersion))
+			scribbleInfo(in)
 		}
 		sv, err := d.Get(su, n)
 		if err != nil {
 			out = append(out, fmt.Sprintf("G %s %v", n, Classify(err)))
 		} else {
 			out = append(out, fmt.Sprintf("G %s %d %q", n, sv.Version, sv.Value))
+			scribble(sv)
 		}
 		for v := uint32(0); v <= maxV; v++ {
 			sv, err := d.GetVersion(su, n, api.SecretVersion(v))
@@ -121,6 +136,7 @@ func Observe(d *db.DB, names []string, maxV uint32) string {
 				out = append(out, fmt.Sprintf("V %s %d %v", n, v, Classify(err)))
 			} else {
 				out = append(out, fmt.Sprintf("V %s %d %d %q", n, v, sv.Version, sv.Value))
+				scribble(sv)
 			}
 		}
 	}
